@@ -38,6 +38,11 @@ def setup_path():
 
 def import_pyteal():
     setup_path()
+    import linecache
+
+    # PyTeal formats a traceback for every Expr it constructs; linecache.checkcache then stat()s every source file
+    # on the (deep) stack each time. Sources do not change during a run: skip the re-validation (harness-side only).
+    linecache.checkcache = lambda filename=None: None
     import pyteal  # noqa
 
     f = os.path.realpath(pyteal.__file__)
